@@ -27,6 +27,15 @@ CHECKS = {
         "placeholder are left unspecified.",
    technique="TLA+ scanner state machine + TLC trace validation of real scanner output over exhaustively enumerated inputs",
    ref="§4 C13"),
+ "C14": dict(
+   text="DDPTypes.tla states equivalence (strip aliases everywhere, structural, definitions/Kombinationen nominal), Assignable, ArgOK, RetOK and the cast rule for "
+        "definitions; TLC checks the laws (reflexive, symmetric, transitive on all triples, alias transparency under every constructor, opacity of definitions, "
+        "congruence of Assignable) on every pair of the universe; ddptypes.Equal on really constructed types for every ordered pair, and acceptance by parser.Parse "
+        "of initialisation / assignment / cast / argument / return for every ordered (target, value) pair of the DDP-expressible universe are validated by a TLA+ trace specification.",
+   note="Universe: closure of {6 primitives, Variable, 2 Kombinationen} under list/alias/definition to depth 2 plus lists of named depth-2 types (quick; positions for all base "
+        "targets + 40 seed-chosen others) / depth 3 (thorough; positions for all expressible depth-2 targets). Nested list types are not writable in DDP source. Casts are compared only where a definition is involved.",
+   technique="TLA+ type algebra + TLC law checking + TLC trace validation of real predicates and real frontend verdicts",
+   ref="§4 C14"),
 }
 PENDING = {}
 
